@@ -155,6 +155,28 @@ def call(fn, *args, **kw):
         return Outcome(False, exc=e)
 
 
+def guarded(oracle, case, prop):
+    """Run an oracle.  An exception that escapes it is a harness error, unless it was raised from inside the library under
+    test (a frame of the construct package is on the traceback): then the library did something the oracle's explicit
+    `call(...)` sites did not anticipate, which is reported as a violation with its own bucket rather than as exit 2."""
+    try:
+        return oracle(case)
+    except (PropertyViolation, OpBudgetExceeded, CaseTimeout):
+        raise
+    except Exception as e:  # noqa
+        tb = e.__traceback__
+        lib_frames = []
+        while tb is not None:
+            fn = tb.tb_frame.f_code.co_filename
+            if (os.sep + "construct" + os.sep) in fn and (os.sep + "pbt" + os.sep) not in fn:
+                lib_frames.append("%s:%d in %s" % (os.path.basename(fn), tb.tb_lineno, tb.tb_frame.f_code.co_name))
+            tb = tb.tb_next
+        if not lib_frames:
+            raise
+        return Failure("%s/unanticipated-library-exception/%s" % (prop, type(e).__name__),
+                       "%s: %s raised inside the library at %s (outside the oracle's guarded calls)" % (type(e).__name__, short(str(e), 200), " <- ".join(lib_frames[-3:])))
+
+
 def short(x, n=200):
     try:
         s = repr(x)
@@ -364,7 +386,7 @@ class Ctx:
             last["current"] = case
             arm_watchdog()
             try:
-                f = oracle(case)
+                f = guarded(oracle, case, ctx.prop)
             finally:
                 disarm_watchdog()
             if f is None:
@@ -423,7 +445,7 @@ class Ctx:
         """Enumeration driver: run oracle on one explicit case."""
         arm_watchdog()
         try:
-            f = oracle(case)
+            f = guarded(oracle, case, self.prop)
         finally:
             disarm_watchdog()
         return self.handle(f, case)
